@@ -183,6 +183,9 @@ func visitNodes(root interface{}, fn func(typeName string, v reflect.Value)) {
 			}
 		case reflect.Slice, reflect.Array:
 			if v.Type().Elem().Kind() == reflect.Uint8 {
+				if v.Type().Name() == "ListArg" {
+					fn("ListArg", v)
+				}
 				return
 			}
 			if v.Kind() == reflect.Slice && v.Len() > 0 && v.Type().Name() != "" {
